@@ -32,6 +32,19 @@ MODES = ['path-stdout', 'path-output', 'in-place', 'stdin-stdout', 'stdin-output
 
 @st.composite
 def sources(draw):
+    src, kind = draw(_sources())
+    # a UTF-8 BOM in front of anything that is UTF-8 (the BOM counts as source bytes; the minified body may grow by 1-3 bytes)
+    if draw(st.integers(0, 5)) == 0 and not src.startswith(b'\xef\xbb\xbf') and b'coding' not in src[:60]:
+        try:
+            src.decode('utf-8')
+            return b'\xef\xbb\xbf' + src, kind + '+bom'
+        except UnicodeDecodeError:
+            pass
+    return src, kind
+
+
+@st.composite
+def _sources(draw):
     r = draw(st.integers(0, 9))
     if r < 3:
         return draw(st.sampled_from(TINY)), 'tiny'
